@@ -50,6 +50,7 @@ fn main() {
         let f: &vpcheck::procmon::WorkerCase = match (p, stream) {
             ("C08", _) => &vpcheck::props::c08::case,
             ("C12", _) => &vpcheck::props::c12::case,
+            ("C14", _) => &vpcheck::props::c14::worker_case,
             ("C10", "poison") => &vpcheck::props::c10::poison_case,
             _ => usage(),
         };
